@@ -6,7 +6,7 @@ import (
 	"veriftool/runner"
 )
 
-var mapsOnly = instr.Opts{Maps: true}
+var mapsOnly = instr.Opts{Maps: true, Sync: true} // Sync: sync.Pool, sync.Once etc. must be modelled or runs are not reproducible
 
 var full = instr.Opts{Maps: true, Yields: true, Sync: true, Time: true, Access: true}
 var yieldsAndClock = instr.Opts{Yields: true, Time: true}
